@@ -21,7 +21,7 @@ def cov_c07(st, tier):
 
 ENGINES = [
     {"name": "E-A netsim", "path": "engine/", "serves_properties": ["C01", "C02", "C10", "C14", "C15"], "kind_free_text": "real client + real server main loops as coroutines in one process under a virtual clock/network/tun; fork-at-choice-point DFS over per-datagram fates, deviation-bounded"},
-    {"name": "E-B adversary", "path": "engine/", "serves_properties": ["C03", "C04", "C14", "C16"], "kind_free_text": "depth-bounded explicit-state search over message alphabets against the real server/client loop, exact-state hashing of the whole image"},
+    {"name": "E-B adversary", "path": "engine/", "serves_properties": ["C03", "C04", "C13", "C14", "C16", "C20"], "kind_free_text": "depth-bounded explicit-state search over message alphabets against the real server/client loop, exact-state hashing of the whole image"},
     {"name": "E-C enumerators", "path": "props/", "serves_properties": ["C07", "C08", "C09", "C17", "C18", "C19"], "kind_free_text": "exhaustive enumeration of finite input families through the real pure functions, compared with independent references"},
 ]
 
@@ -179,7 +179,40 @@ def eb_entry(harness, prop, level_text, level_note, rule, keys, quick_args, thor
     }
 
 
+def cov_c13(st, tier):
+    return {
+        "states": st["cases"], "transitions": st["cases"] + st["system_calls"], "traces_validated_against_impl": st["cases"],
+        "evaluations": st["cases"], "distinct_nontrivial": st["distinct_outcomes"],
+        "rule": "state = one (presentation, login reply payload) case; transition = the real write_dns() building the answer, the real client handshake_login() consuming it from the snapshotted "
+                "'waiting for the login reply' state, and each system() call it makes. distinct = distinct (presentation, sequence of command classes, client exits/accepts/retries) outcomes",
+        "system_calls_checked": st["system_calls"], "ifconfig_address_commands": st["ifconfig_ip_ok"], "ifconfig_mtu_commands": st["ifconfig_mtu_ok"],
+        "client_gave_up_errx": st["client_exits"], "client_retried": st["client_retries"], "logins_accepted": st["logins_accepted"], "presentations": st["presentations"],
+        "sanitizer_notes_for_C06": st.get("sanitizer_notes_for_C06", 0),
+        "bounds": {"fields": "52 client-address x 8 server-address x 12 mtu x 9 netmask strings + 11 structural replies",
+                   "product": "full product under all 16 presentations" if tier == "thorough" else "full product under NULL and PRIVATE, field-wise under the other 14 presentations"},
+    }
+
+
 PROPS = {
+    "C13": {
+        "harness": "C13.c", "flavor": "ubsan", "engine": "E-B adversary",
+        "tiers": {"quick": {"budget_s": 120}, "thorough": {"budget_s": 600}},
+        "coverage": cov_c13,
+        "level_text": "The real client runs its real handshake_login() (and through it the real tun_setip()/tun_setmtu()) as a coroutine; the state 'login query sent, waiting for the reply' is snapshotted and, for every login reply in the product of hostile field alphabets (dotted quads followed by each ASCII whitespace and shell metacharacters, leading whitespace, short/hex/octal/over-range forms, 64/65+ character fields, high bytes; mtu and netmask strings with signs, overflow and trailing text; 3- and 5-part and NUL-containing replies) under each of 16 downstream presentations (NULL, PRIVATE, TXT t/s/u/v/r, CNAME h/i/j/k, MX, SRV, A), the reply is built by the server image's real write_dns() and handed to the client. Every system() argument must match the grammar 'PATH=/sbin:/bin ifconfig dns0 <dotted quad> <dotted quad> netmask <dotted quad>' or '... mtu <201..1500>' exactly.",
+        "level_note": "Linux branch of tun.c only (the BSD route command and the Windows netsh command are not compiled). The grammar checker is self-tested at start. Enumeration of the alphabet product is complete; strings outside the alphabets are not covered.",
+        "technique": "exhaustive enumeration of a hostile-reply alphabet product against the real client code from a snapshotted protocol state, strict output grammar as oracle",
+        "assumptions": COMMON_ASSUME + ["system() is virtual: it records its argument and returns 0"],
+    },
+    "C20": {
+        "harness": "fwd.c", "flavor": "ubsan", "images": (("s", "server"),), "engine": "E-B adversary",
+        "tiers": {"quick": {"budget_s": 120, "args": ["--depth", "5"]}, "thorough": {"budget_s": 1200, "args": ["--depth", "6"]}},
+        "coverage": cov_eb("A reference list of forwarded (requester, id) pairs decides where a reply may go. distinct = distinct (letter kind, candidates, deliveries) classes",
+                           ["queries_forwarded_ok", "replies_routed_ok", "replies_dropped_ok", "replies_with_ambiguous_id", "tunnel_queries"]),
+        "level_text": "The real server loop runs with forwarding enabled (-b). Every sequence up to the depth bound of {query for a name outside the tunnel domain from requester A/B/C with DNS id 0..3 (two names/types), reply on the local-DNS socket with id 0..4 / 100 / 115, tunnel-domain query} is applied from six start states (ring empty, pre-filled with 14/15/16/17/31 distinct-id queries from a fourth requester, i.e. just before and after index wrap-around). Each query must produce exactly one datagram to 127.0.0.1:<port> with the same id, name and type and nothing else; each reply goes unchanged to the requester of the matching entry among the 16 most recent forwarded queries (to one of them if ids repeat, outside the property) and to nobody if there is none.",
+        "level_note": "IPv4 requesters only. A reply with id 0 on a ring with unused entries makes the server call sendto() without an address (fails in the kernel, reaches nobody); the harness ignores that output.",
+        "technique": "explicit-state model checking of the real server loop: depth-bounded exhaustive search over a finite message alphabet with exact-state hashing, reference model of the 16-entry ring",
+        "assumptions": EB_ASSUME,
+    },
     "C03": eb_entry("auth.c", "C03",
         "Every sequence of up to N letters (N = depth bound) from an 82-letter alphabet - version/login with correct, replayed, other-slot, off-by-one, wrong and short responses, every privileged command, raw login/data/ping, tun arrivals, +30 s/+61 s - from two source addresses and userids 0,1,5,128 is applied to the real server loop from four start states (source check on/off, fresh/established); after every letter every tun write, every positive answer (login accept, address, codec/option/fragment-size acknowledgement, probe data, tunnel payload, raw login/ping reply) and every change of a session's settings must be attributable to a slot for which the response to its current challenge was sent since its last VACK.",
         "One-directional oracle (never demands that a login be accepted). The model learns challenges from VACK answers like a client. Answers are attributed by the question they echo. Password and challenge values are fixed (C19 covers the formula for all inputs).",
